@@ -128,6 +128,9 @@ func (e *Engine) loopHeader(fr *Frame, h *ssa.BasicBlock, st *State) *State {
 		lc.mods = append(lc.mods, e.evalModifies(env, m))
 		lc.hasMod = true
 	}
+	if spec.NoMods {
+		lc.hasMod = true
+	}
 	lc.pre = st.clone()
 	// 2. havoc
 	ns := st.clone()
